@@ -140,6 +140,7 @@ fn one<const D: usize>(c: &Value) -> Value {
         "results": results, "fresh": fresh,
         "sampler_unchanged": before == after,
         "json": serde_json::from_str::<Value>(&before).unwrap(),
+        "json_text": before.clone(),
         "json_roundtrip_identical": serde_json::to_string(&from_json).unwrap() == before,
         "cbor_roundtrip_identical": cb == cb2,
         "restored_json": restored_json, "restored_cbor": restored_cbor,
